@@ -2,6 +2,7 @@
      <op> ;; <dump a1> ;; ... ;; <dump an>     op in add sub mul div pow neg sqrt cbrt addv mulv
          -> "<dump of the model's result> ;; <hash>"  |  EXN:<k>  |  CRASH:<sig>  |  FUEL  |  LIBM
      canon ;; <dump>                           -> "1"  |  "0 ;; <rule code> ;; <dump of the first offending node>"
+     guards ;; <dump>                          -> three flags: add_operand_ok mul_operand_ok mul_operand_sorted
    Dumps are the text of harness/dump.h; the result is printed in the same syntax (Add
    dictionaries in the model's order: the check sorts them on both sides). *)
 open Semodel
@@ -102,6 +103,10 @@ let () =
             else (match canonical_witness e with
                   | Some w -> print_endline ("0 ;; " ^ dec_of_n (node_rule w) ^ " ;; " ^ dump w)
                   | None -> print_endline "0 ;; ?")
+        | "guards" :: d :: _ ->
+            let e = expr_of_string d in
+            let b x = if x then "1" else "0" in
+            print_endline (b (add_operand_ok e) ^ b (mul_operand_ok e) ^ b (mul_operand_sorted e))
         | op :: args ->
             let es = List.map expr_of_string (List.filter (fun s -> s <> "") args) in
             print_endline (show_res (api_run (op_of_string op) es))
